@@ -25,6 +25,17 @@ type simReq struct {
 	// (data with valid until received, then valid dropped until received falls); outputs are
 	// acknowledged by echoing valid.  When set, Env is ignored.
 	Streams [][]uint64 `json:"streams,omitempty"`
+	// reference meaning of simulation rules (C15): "absolute:<tick>:set:<obj>:<val>" applied by hand, in the order and with
+	// the valid/received protocol of the simulation loop of cmd/bondmachine; obj is iK or p<P>r<K>.  Suspended rules are listed
+	// by the caller but must not be applied.
+	Rules []simRule `json:"rules,omitempty"`
+}
+
+type simRule struct {
+	Tick      int    `json:"tick"`
+	Obj       string `json:"obj"`
+	Val       uint64 `json:"val"`
+	Suspended bool   `json:"suspended"`
 }
 
 type simProc struct {
@@ -154,7 +165,27 @@ func runSim(q *simReq) (res simRes) {
 	pos := make([]int, len(q.Streams))
 	wait := make([]bool, len(q.Streams))
 	for t := 0; t < q.Ticks; t++ {
-		if q.Streams != nil {
+		if q.Rules != nil {
+			for i := range vm.InputsRecv {
+				if vm.InputsRecv[i] {
+					vm.InputsValid[i] = false
+				}
+			}
+			for _, r := range q.Rules {
+				if r.Suspended || r.Tick != t {
+					continue
+				}
+				var a, b int
+				if n, _ := fmt.Sscanf(r.Obj, "p%dr%d", &a, &b); n == 2 {
+					if a < len(vm.Processors) && b < len(vm.Processors[a].Registers) {
+						vm.Processors[a].Registers[b] = typed(bm.Rsize, r.Val)
+					}
+				} else if n, _ := fmt.Sscanf(r.Obj, "i%d", &a); n == 1 && a < len(vm.Inputs_regs) {
+					vm.Inputs_regs[a] = typed(bm.Rsize, r.Val)
+					vm.InputsValid[a] = true
+				}
+			}
+		} else if q.Streams != nil {
 			for i := range q.Streams {
 				if i >= len(vm.Inputs_regs) {
 					continue
@@ -211,6 +242,11 @@ func runSim(q *simReq) (res simRes) {
 			return
 		}
 		res.Ticks = append(res.Ticks, simSnapshot(vm, full))
+		if q.Rules != nil {
+			for o := range vm.OutputsRecv {
+				vm.OutputsRecv[o] = vm.OutputsValid[o]
+			}
+		}
 	}
 	return
 }
